@@ -302,3 +302,20 @@ _reg(
     "DESIGN.md 3/C06",
     "Exploration over a hand-written control-flow grammar swept over steering inputs including zero and one iteration.",
 )
+
+_reg(
+    "C07",
+    "exploration",
+    "cases = 31 programs built twice from module-level callables - once with @onnx_function (free functions, unique=True, custom namespace/type, "
+    "nested three deep, unused inputs, traced flag default, int+float inputs, callable classes and nnx modules with equal / different weights, "
+    "differing static fields, differing structure, same instance twice, permuted call order, symbolic batch, vmap, double precision, layout flags) "
+    "and once from undecorated twins - plus the registered onnx_functions examples. Oracles: ORT(decorated export) vs eager JAX of the twin on "
+    "three value classes; ORT(decorated) vs ORT(undecorated export) on the same feeds; call-node / FunctionProto arity and closedness walk. Two call "
+    "sites sharing one definition although they compute different functions would show as a disagreement with JAX. evaluations = executions "
+    "compared; non-trivial = a decorated program whose boundaries survived and all comparisons ran (definitions / call nodes are recorded: shared "
+    "bodies = calls > definitions); distinct = program.",
+    (120, 30, 250, 45),
+    "differential runtime monitor: decorated vs undecorated vs eager JAX, plus function-signature walk of the ModelProto",
+    "DESIGN.md 3/C07",
+    "Exploration over placements of function boundaries and pairs of call sites (same/different instance, weights, static fields, shapes, order).",
+)
